@@ -15,7 +15,7 @@ PROPERTY = "C04"
 LEVEL = "exploration"
 NEED_EXT = True
 REQUIRED = ["rows.single", "rows.subset", "rows.permutation", "rows.repeat", "state.unchanged", "pickle",
-            "clone_with_fitted_parameters", "exception.balanced_predictions", "asan.criterion_copy", "accessors.pure", "rows.buffer_refilled_in_place"]
+            "clone_with_fitted_parameters", "exception.balanced_predictions", "asan.criterion_copy", "accessors.pure", "rows.buffer_refilled_in_place", "poisoned_allocator"]
 RULE = ("every registered class with row-wise methods x configurations x label sets x batches made of training rows, "
         "perturbed rows, far rows (buckets / cells / leaves unseen at training time), exact duplicates and a single "
         "row; non-trivial = batch with >= 2 distinct rows routed to different buckets or classes; distinct = distinct "
@@ -79,6 +79,18 @@ def margins(spec, est, Q):
     except Exception:
         return None
     return None
+
+
+EXTRA_MODULES = {
+    "ExtendedFeatures": ("mlinsights.mlmodel._extended_features_polynomial",),
+    "KMeansL1L2": ("mlinsights.mlmodel._kmeans_022",),
+    "ConstraintKMeans": ("mlinsights.mlmodel._kmeans_constraint_",),
+    "PiecewiseTreeRegressor": (),
+    "TransformedTargetRegressor2": ("mlinsights.mlmodel.sklearn_transform_inv_fct",),
+    "TransformedTargetClassifier2": ("mlinsights.mlmodel.sklearn_transform_inv_fct",),
+    "DummyTimeSeriesRegressor": ("mlinsights.timeseries.utils", "mlinsights.timeseries.base"),
+    "ARTimeSeriesRegressor": ("mlinsights.timeseries.utils", "mlinsights.timeseries.base"),
+}
 
 
 def label_variants(D):
@@ -237,6 +249,23 @@ def run_rows(case, ctx):
                                           "%s" % (bad[0], ", ".join(sorted(g1))), cfg=cfg)
                 except Exception as e:
                     ctx.violation(K + "accessor/raised/%s" % type(e).__name__, str(e)[:150], cfg=cfg)
+                # ---- poisoned allocator: what the model answers does not depend on what numpy.empty hands over
+                try:
+                    from vrt.poison import Poison
+                    mods = sorted({k.__module__ for k in type(est).__mro__ if k.__module__.startswith("mlinsights")}
+                                  | set(EXTRA_MODULES.get(spec.name, ())))
+                    plain = spec.outputs(est, Q, list(spec.methods))
+                    with Poison(mods) as pz:
+                        poisoned = spec.outputs(est, Q, list(spec.methods))
+                    ctx.hit("poisoned_allocator")
+                    ctx.extra["poisoned_buffers"] = ctx.extra.get("poisoned_buffers", 0) + pz.allocations
+                    bad = [m for m in plain if m not in poisoned or not same_out(plain[m], poisoned[m])]
+                    if bad:
+                        ctx.violation(K + "%s/reads-uninitialised-memory" % bad[0], "%s changes when the buffers "
+                                      "obtained from numpy.empty are pre-filled with a sentinel: part of an output "
+                                      "buffer is never written" % bad[0], cfg=cfg)
+                except Exception as e:
+                    ctx.violation(K + "poisoned-allocator/raised/%s" % type(e).__name__, str(e)[:150], cfg=cfg)
                 # ---- persistence
                 ref = None
                 try:
